@@ -96,7 +96,119 @@ def cases(rng, tier):
             else:
                 ops.append(["flush"])
         out.append({"t": "hist", "ops": ops})
+    # the tree as the ENDPOINTS build it: logins (authorization + code redemption), token exchange by the owning or by another client
+    # (which adds an exchange grant under that client), exchange of exchanged tokens, client-session revocation
+    for _ in range(12 * n):
+        ops, ntok = [], 0
+        for _ in range(rng.randint(3, 9)):
+            r = rng.random()
+            if r < 0.35 or ntok == 0:
+                ops.append(["login", rng.choice(EP_USERS), rng.choice(EP_CLIENTS)])
+                ntok += 1
+            elif r < 0.85:
+                ops.append(["xchg", rng.randrange(ntok), rng.choice(EP_CLIENTS)])
+                ntok += 1          # slot for the exchanged token (stays empty when the exchange is refused)
+            else:
+                ops.append(["logout", rng.choice(EP_USERS), rng.choice(EP_CLIENTS)])
+        out.append({"t": "ephist", "ops": ops})
     return out
+
+
+EP_USERS = ["diana", "bob"]
+EP_CLIENTS = ["client_1", "client_2", "client_3"]
+
+
+def corpus():
+    return [{"t": "ephist", "ops": [["login", "diana", "client_1"], ["xchg", 0, "client_2"], ["xchg", 1, "client_2"], ["xchg", 1, "client_3"],
+                                    ["login", "diana", "client_2"], ["logout", "diana", "client_2"], ["xchg", 0, "client_1"]]}]
+
+
+def _ephist(c):
+    """the session tree after every endpoint-level step + the model operations the step stands for"""
+    import prov
+    R = prov.Runner(oidc=True, jwt=False, usage="exchange")
+    sm = R.sm
+    toks = []          # slot -> (access token handle, user, client whose grant holds it) | None
+    gids = {}          # real grant id (as it appears in a KEY) -> index
+    steps, mops = [], []
+
+    def canon(x):
+        for real, i in gids.items():
+            x = x.replace(real, f"g{i}")
+        return x
+
+    def dump():
+        for k in sm.db.db:
+            p = k.split(DIVIDER)
+            if len(p) == 3 and p[2] not in gids:
+                gids[p[2]] = len(gids)
+        rows, extra = [], []
+        seen = {}
+        for k, nd in sm.db.db.items():
+            if isinstance(nd, ExchangeGrant):
+                kind, subs = "X", []
+            elif isinstance(nd, Grant):
+                kind, subs = "G", []
+            elif isinstance(nd, UserSessionInfo):
+                kind, subs = "U", list(nd.subordinate)
+            elif isinstance(nd, ClientSessionInfo):
+                kind, subs = "C", list(nd.subordinate)
+            else:
+                kind, subs = "?", list(getattr(nd, "subordinate", []))
+            rows.append([canon(k), kind, 1 if nd.revoked else 0, [canon(x) for x in subs]])
+            if isinstance(nd, Grant) and nd.id != k.split(DIVIDER)[-1]:
+                extra.append(["node-id-differs-from-key", canon(k), canon(nd.id)])
+            if id(nd) in seen:
+                extra.append(["one-object-under-two-keys", seen[id(nd)], canon(k)])
+            seen[id(nd)] = canon(k)
+            if isinstance(nd, Grant):
+                for t in nd.issued_token:
+                    try:
+                        info = sm.get_session_info_by_token(t.value, grant=True, handler_key=t.token_class if t.token_class in sm.token_handler.handler else None)
+                        if DIVIDER.join([info["user_id"], info["client_id"], info["grant"].id]) != k or info["grant"] is not nd:
+                            extra.append(["token-resolves-elsewhere", canon(k), t.token_class])
+                    except Exception as e:
+                        extra.append(["token-does-not-resolve", canon(k), t.token_class, type(e).__name__])
+        return rows, extra
+
+    for op in c["ops"]:
+        k = op[0]
+        mop = None
+        try:
+            if k == "login":
+                u, cl = op[1], op[2]
+                r = R.op(["authorize", u, cl, ["openid", "profile"], f"https://{cl}.example.com/cb"])
+                tok = None
+                if r[0] == "code":
+                    ng = len(gids)
+                    mop = ["create", u, cl, ng]
+                    R.op(["tokenParse", cl, r[1], f"https://{cl}.example.com/cb"])
+                    r2 = R.op(["tokenProcess", 0])
+                    if r2[0] == "tokens" and r2[1] >= 0:
+                        tok = (r2[1], u, cl)
+                toks.append(tok)
+            elif k == "xchg":
+                src, cl = toks[op[1]], op[2]
+                tok = None
+                if src is not None:
+                    r = R.op(["exchange", cl, src[0], "access", "access", None])
+                    if r[0] == "exchanged" and r[1] >= 0:
+                        if cl != src[2]:
+                            mop = ["exchange", src[1], cl, len(gids)]
+                        tok = (r[1], src[1], cl)
+                toks.append(tok)
+            elif k == "logout":
+                u, cl = op[1], op[2]
+                if DIVIDER.join([u, cl]) in sm.db.db:
+                    sm.revoke_sub_tree(sm.encrypted_branch_id(u, cl, "none"), 1)
+                    mop = ["revoke", u, cl, "none", 1]
+            rows, extra = dump()
+            steps.append({"r": "ok", "db": rows, "extra": extra, "mop": mop})
+        except Exception as e:
+            steps.append({"r": "exc", "cls": type(e).__name__, "mop": mop})
+            break
+    return {"steps": steps, "n": len(steps)}
+
 
 
 class _H:
@@ -180,6 +292,8 @@ def impl(c):
             return {"resolve": sm.decrypt_branch_id(sid)}
         except Exception:
             return {"resolve": "exc"}
+    if t == "ephist":
+        return _ephist(c)
     if t == "hist":
         hh = _H()
         steps = []
@@ -210,6 +324,8 @@ def model_lines(c, obs=None):
         return ["lv\tjoin\t" + enc_list(c["path"]), "lv\tsplit\t" + enc_str(DIVIDER.join(c["path"]))]
     if t == "sid":
         return ["lv\tsid\t" + enc_str(RND) + "\t" + enc_list(c["path"])]
+    if t == "ephist":
+        return _ep_lines(obs)
     if t == "hist":
         ls = ["sdb\treset"]
         for op in c["ops"]:
@@ -227,6 +343,19 @@ def model_lines(c, obs=None):
             elif k == "flush":
                 ls.append("sdb\tflush")
         return ls
+
+
+def _ep_lines(obs):
+    ls = ["sdb\treset"]
+    for st in obs["steps"]:
+        m = st.get("mop")
+        if m is None:
+            continue
+        if m[0] in ("create", "exchange"):
+            ls.append(f"sdb\t{m[0]}\t{enc_str(m[1])}\t{enc_str(m[2])}\t{enc_str('g%d' % m[3])}")
+        elif m[0] == "revoke":
+            ls.append(f"sdb\trevokesid\t{enc_list([m[1], m[2], m[3]])}\t{m[4]}")
+    return ls
 
 
 def _parse_dump(s):
@@ -262,6 +391,23 @@ def compare(c, obs, outs):
     if t == "sid":
         m = "exc" if outs[0] == "exc" else dec_list(outs[0].split("\t", 1)[1] if "\t" in outs[0] else "")
         return [] if m == obs["resolve"] else [f"sid resolve differs: model={m!r}"]
+    if t == "ephist":
+        d, j, last = [], 0, []
+        for i, st in enumerate(obs["steps"]):
+            if st["r"] != "ok":
+                d.append(f"step {i}: the endpoints raised {st['cls']}")
+                break
+            if st.get("mop") is not None:
+                j += 1
+                o = outs[j]
+                if not o.startswith("ok"):
+                    d.append(f"step {i}: model {o}, impl ok")
+                    break
+                last = sorted(_parse_dump(o.split("\t", 1)[1] if "\t" in o else ""))
+            if last != sorted(st["db"]):
+                d.append(f"step {i} ({c['ops'][i][0]}): session tree differs: model={last!r} impl={sorted(st['db'])!r}")
+                break
+        return d
     if t == "hist":
         d = []
         for i, st in enumerate(obs["steps"]):
@@ -294,6 +440,27 @@ def oracle(c, obs):
             elif p[-1] != p[-1].rstrip():
                 cls = "sid-trailing-ws"
             v.append({"cls": cls})
+    if t == "ephist":
+        for i, st in enumerate(obs["steps"]):
+            if st["r"] != "ok":
+                break
+            for e in st["extra"]:
+                v.append({"cls": e[0], "step": i, "op": c["ops"][i][0]})
+            db = {r[0]: r for r in st["db"]}
+            for k, r in db.items():
+                path = k.split(DIVIDER)
+                if len(path) > 1:
+                    par = DIVIDER.join(path[:-1])
+                    if par not in db:
+                        v.append({"cls": "orphan", "step": i, "key": k, "op": c["ops"][i][0]})
+                    elif k not in db[par][3]:
+                        v.append({"cls": "unlinked", "step": i, "key": k})
+                for s in r[3]:
+                    if s not in db:
+                        v.append({"cls": "dangling-subordinate", "step": i, "key": k, "sub": s, "op": c["ops"][i][0]})
+            if v:
+                break
+        return v
     if t == "hist":
         idents = set()
         for op in c["ops"]:
@@ -337,13 +504,15 @@ def known_key(c, v, known):
 
 
 def classify(c, obs):
+    if c["t"] == "ephist":
+        return "ephist:" + ("x" if any(st.get("mop") and st["mop"][0] == "exchange" for st in obs["steps"]) else "plain")
     if c["t"] == "hist":
         return "hist:" + ("exc" if obs["steps"] and obs["steps"][-1]["r"] == "exc" else "ok")
     return c["t"]
 
 
 def nontrivial(c, obs):
-    if c["t"] == "hist":
+    if c["t"] in ("hist", "ephist"):
         return len(obs["steps"]) >= 3
     s = " ".join(c.get("xs", []) + c.get("path", []) + [c.get("txt", "")])
     return any(ch in s for ch in ";:| \t0123456789")
